@@ -5,7 +5,8 @@
    this run" (all_honest = True gives the plain round trips; only_honest = a single honest encryption under that key,
    which is how Covercrypt uses every DEM key).  Statements are the types Coq prints for the lemmas of DemProofs.v. *)
 From Coq Require Import List NArith Bool Arith Lia.
-From CC Require Import Dem DemProofs.
+From Coq Require Import Permutation.
+From CC Require Import Dem DemProofs Shuffle.
 Import ListNotations.
 
 Theorem C12_pke_roundtrip :
@@ -128,6 +129,30 @@ Theorem C12_kdf_labels_distinct :
        forall seed seed' : D, kdf seed label_md <> kdf seed' label_secret.
 Proof. exact (@metadata_key_ne_secret). Qed.
 Print Assumptions C12_kdf_labels_distinct.
+
+
+(* ---- the in-place shuffle run by every decapsulation (and by encapsulation on the targets) as machine code (Shuffle.v):
+   bounds-checked swaps and a remainder by the length; an ALTERED encapsulation may announce no share at all, so the
+   length 0 is reachable from untrusted bytes.  For every length and every stream of draws: no panic, a permutation
+   (so the membership-only characterisation of decapsulation, CryptoKem.c_decaps_iff / h_decaps_iff, applies). ---- *)
+Theorem C12_shuffle_no_panic : forall (A : Type) (rs : list nat) (l : list A), shuffle A rs l <> Panic A.
+Proof. exact shuffle_no_panic. Qed.
+Print Assumptions C12_shuffle_no_panic.
+
+Theorem C12_shuffle_permutation :
+  forall (A : Type) (rs : list nat) (l : list A), exists l', shuffle A rs l = Val A l' /\ Permutation l l'.
+Proof. exact shuffle_permutation. Qed.
+Print Assumptions C12_shuffle_permutation.
+
+Theorem C12_shuffle_same_members :
+  forall (A : Type) (rs : list nat) (l l' : list A), shuffle A rs l = Val A l' -> forall x, In x l <-> In x l'.
+Proof. exact shuffle_same_members. Qed.
+Print Assumptions C12_shuffle_same_members.
+
+(* the variant that takes the remainder before testing the length does panic on the empty list *)
+Theorem C12_shuffle_unguarded_panics : shuffle_rem_first nat [7] [] = Panic nat.
+Proof. exact (rem_before_test_refuted nat). Qed.
+Print Assumptions C12_shuffle_unguarded_panics.
 
 
 (* the hypotheses are jointly satisfiable (concrete computable instance) *)
